@@ -4,11 +4,12 @@ From S2T Require Import Lib.PyStr C06.Lib C06.Model.
 Import ListNotations.
 
 Definition set_sites : list site := [
-  ((s "sharepoint2text/parsing/extractors/archive_extractor.py"), (s "<module>"), (83)%Z, UAnyAll);
-  ((s "sharepoint2text/parsing/extractors/archive_extractor.py"), (s "<module>"), (96)%Z, UNone);
+  ((s "sharepoint2text/parsing/extractors/archive_extractor.py"), (s "<module>"), (85)%Z, UAnyAll);
+  ((s "sharepoint2text/parsing/extractors/archive_extractor.py"), (s "<module>"), (101)%Z, UNone);
   ((s "sharepoint2text/parsing/extractors/data_types.py"), (s "DocxContent.iterate_units"), (951)%Z, UMember);
   ((s "sharepoint2text/parsing/extractors/epub_extractor.py"), (s "<module>"), (119)%Z, UMember);
   ((s "sharepoint2text/parsing/extractors/epub_extractor.py"), (s "<module>"), (122)%Z, UMember);
+  ((s "sharepoint2text/parsing/extractors/epub_extractor.py"), (s "<module>"), (669)%Z, UMember);
   ((s "sharepoint2text/parsing/extractors/html_extractor.py"), (s "<module>"), (111)%Z, UMember);
   ((s "sharepoint2text/parsing/extractors/html_extractor.py"), (s "<module>"), (114)%Z, UMember);
   ((s "sharepoint2text/parsing/extractors/html_extractor.py"), (s "<module>"), (142)%Z, UMember);
@@ -22,7 +23,7 @@ Definition set_sites : list site := [
   ((s "sharepoint2text/parsing/extractors/ms_legacy/ppt_extractor.py"), (s "<module>"), (86)%Z, UMember);
   ((s "sharepoint2text/parsing/extractors/ms_legacy/ppt_extractor.py"), (s "<module>"), (87)%Z, UMember);
   ((s "sharepoint2text/parsing/extractors/ms_legacy/ppt_extractor.py"), (s "<module>"), (95)%Z, UMember);
-  ((s "sharepoint2text/parsing/extractors/ms_legacy/ppt_extractor.py"), (s "_extract_images_from_pictures_stream"), (608)%Z, UMember);
+  ((s "sharepoint2text/parsing/extractors/ms_legacy/ppt_extractor.py"), (s "_extract_images_from_pictures_stream"), (613)%Z, UMember);
   ((s "sharepoint2text/parsing/extractors/ms_legacy/ppt_extractor.py"), (s "_parse_ppt_document"), (364)%Z, UMember);
   ((s "sharepoint2text/parsing/extractors/ms_legacy/rtf_extractor.py"), (s "_RtfParser.<class>"), (205)%Z, UAnyAll);
   ((s "sharepoint2text/parsing/extractors/ms_legacy/xls_extractor.py"), (s "_extract_images_from_workbook"), (348)%Z, UMember);
@@ -48,11 +49,11 @@ Definition set_sites : list site := [
   ((s "sharepoint2text/parsing/extractors/open_office/odt_extractor.py"), (s "<module>"), (242)%Z, UMember);
   ((s "sharepoint2text/parsing/extractors/open_office/odt_extractor.py"), (s "_extract_images_from_context"), (479)%Z, UMember);
   ((s "sharepoint2text/parsing/extractors/open_office/odt_extractor.py"), (s "_extract_styles_from_context"), (667)%Z, USorted);
-  ((s "sharepoint2text/parsing/extractors/pdf/pdf_extractor.py"), (s "_assign_digit_glyphs"), (383)%Z, UMember);
-  ((s "sharepoint2text/parsing/extractors/pdf/pdf_extractor.py"), (s "_TableExtractor.<class>"), (865)%Z, UMember);
-  ((s "sharepoint2text/parsing/extractors/pdf/pdf_extractor.py"), (s "_TableExtractor._split_compound_words"), (1362)%Z, UMember);
-  ((s "sharepoint2text/parsing/extractors/pdf/pdf_extractor.py"), (s "_TableExtractor._split_compound_words"), (1363)%Z, UMember);
-  ((s "sharepoint2text/parsing/extractors/pdf/pdf_extractor.py"), (s "_TableExtractor.is_numeric_token"), (1262)%Z, UMember);
+  ((s "sharepoint2text/parsing/extractors/pdf/pdf_extractor.py"), (s "_assign_digit_glyphs"), (389)%Z, UMember);
+  ((s "sharepoint2text/parsing/extractors/pdf/pdf_extractor.py"), (s "_TableExtractor.<class>"), (871)%Z, UMember);
+  ((s "sharepoint2text/parsing/extractors/pdf/pdf_extractor.py"), (s "_TableExtractor._split_compound_words"), (1368)%Z, UMember);
+  ((s "sharepoint2text/parsing/extractors/pdf/pdf_extractor.py"), (s "_TableExtractor._split_compound_words"), (1369)%Z, UMember);
+  ((s "sharepoint2text/parsing/extractors/pdf/pdf_extractor.py"), (s "_TableExtractor.is_numeric_token"), (1268)%Z, UMember);
   ((s "sharepoint2text/parsing/extractors/serialization.py"), (s "_deserialize_dataclass"), (196)%Z, UMember);
   ((s "sharepoint2text/parsing/extractors/util/omml_to_latex.py"), (s "<module>"), (157)%Z, UMember);
   ((s "sharepoint2text/parsing/extractors/util/zip_context.py"), (s "ZipContext.__init__"), (18)%Z, UMember);
@@ -63,9 +64,9 @@ Definition set_sites : list site := [
 ].
 
 Definition nd_sites : list nd_site := [
-  ((s "sharepoint2text/parsing/extractors/archive_extractor.py"), (s "read_archive"), (536)%Z, (s "time.perf_counter"), SLog);
-  ((s "sharepoint2text/parsing/extractors/archive_extractor.py"), (s "read_archive"), (568)%Z, (s "time.perf_counter"), SLog);
-  ((s "sharepoint2text/parsing/extractors/archive_extractor.py"), (s "read_archive"), (546)%Z, (s "time.perf_counter"), SLog);
+  ((s "sharepoint2text/parsing/extractors/archive_extractor.py"), (s "read_archive"), (570)%Z, (s "time.perf_counter"), SLog);
+  ((s "sharepoint2text/parsing/extractors/archive_extractor.py"), (s "read_archive"), (602)%Z, (s "time.perf_counter"), SLog);
+  ((s "sharepoint2text/parsing/extractors/archive_extractor.py"), (s "read_archive"), (580)%Z, (s "time.perf_counter"), SLog);
   ((s "sharepoint2text/parsing/extractors/html_extractor.py"), (s "_HtmlTextExtractor._find_nodes"), (300)%Z, (s "id()"), SIdentityKey);
   ((s "sharepoint2text/parsing/extractors/html_extractor.py"), (s "_HtmlTextExtractor._find_node"), (317)%Z, (s "id()"), SIdentityKey);
   ((s "sharepoint2text/parsing/extractors/ms_modern/docx_extractor.py"), (s "_extract_formulas_from_context"), (975)%Z, (s "id()"), SIdentityKey);
@@ -76,13 +77,13 @@ Definition nd_sites : list nd_site := [
 ].
 
 Definition stream_sites : list stream_site := [
-  ((s "sharepoint2text/parsing/extractors/archive_extractor.py"), (s "_detect_archive_type_optimized"), (177)%Z, (s "seek"));
-  ((s "sharepoint2text/parsing/extractors/archive_extractor.py"), (s "_detect_archive_type_optimized"), (178)%Z, (s "read"));
-  ((s "sharepoint2text/parsing/extractors/archive_extractor.py"), (s "_detect_archive_type_optimized"), (179)%Z, (s "seek"));
-  ((s "sharepoint2text/parsing/extractors/archive_extractor.py"), (s "_extract_from_7z_optimized"), (422)%Z, (s "seek"));
-  ((s "sharepoint2text/parsing/extractors/archive_extractor.py"), (s "_extract_from_7z_optimized"), (423)%Z, (s "tell"));
-  ((s "sharepoint2text/parsing/extractors/archive_extractor.py"), (s "_extract_from_7z_optimized"), (424)%Z, (s "seek"));
-  ((s "sharepoint2text/parsing/extractors/epub_extractor.py"), (s "read_epub"), (733)%Z, (s "seek"));
+  ((s "sharepoint2text/parsing/extractors/archive_extractor.py"), (s "_detect_archive_type_optimized"), (182)%Z, (s "seek"));
+  ((s "sharepoint2text/parsing/extractors/archive_extractor.py"), (s "_detect_archive_type_optimized"), (183)%Z, (s "read"));
+  ((s "sharepoint2text/parsing/extractors/archive_extractor.py"), (s "_detect_archive_type_optimized"), (184)%Z, (s "seek"));
+  ((s "sharepoint2text/parsing/extractors/archive_extractor.py"), (s "_extract_from_7z_optimized"), (449)%Z, (s "seek"));
+  ((s "sharepoint2text/parsing/extractors/archive_extractor.py"), (s "_extract_from_7z_optimized"), (450)%Z, (s "tell"));
+  ((s "sharepoint2text/parsing/extractors/archive_extractor.py"), (s "_extract_from_7z_optimized"), (451)%Z, (s "seek"));
+  ((s "sharepoint2text/parsing/extractors/epub_extractor.py"), (s "read_epub"), (748)%Z, (s "seek"));
   ((s "sharepoint2text/parsing/extractors/html_extractor.py"), (s "read_html"), (622)%Z, (s "seek"));
   ((s "sharepoint2text/parsing/extractors/html_extractor.py"), (s "read_html"), (624)%Z, (s "read"));
   ((s "sharepoint2text/parsing/extractors/mail/eml_email_extractor.py"), (s "read_eml_format_mail"), (261)%Z, (s "seek"));
@@ -97,8 +98,8 @@ Definition stream_sites : list stream_site := [
   ((s "sharepoint2text/parsing/extractors/ms_legacy/ppt_extractor.py"), (s "read_ppt"), (235)%Z, (s "seek"));
   ((s "sharepoint2text/parsing/extractors/ms_legacy/ppt_extractor.py"), (s "_extract_ppt_content_structured"), (252)%Z, (s "seek"));
   ((s "sharepoint2text/parsing/extractors/ms_legacy/ppt_extractor.py"), (s "_extract_ppt_content_structured"), (259)%Z, (s "seek"));
-  ((s "sharepoint2text/parsing/extractors/ms_legacy/ppt_extractor.py"), (s "_extract_ppt_metadata"), (670)%Z, (s "seek"));
   ((s "sharepoint2text/parsing/extractors/ms_legacy/ppt_extractor.py"), (s "_extract_ppt_metadata"), (675)%Z, (s "seek"));
+  ((s "sharepoint2text/parsing/extractors/ms_legacy/ppt_extractor.py"), (s "_extract_ppt_metadata"), (680)%Z, (s "seek"));
   ((s "sharepoint2text/parsing/extractors/ms_legacy/rtf_extractor.py"), (s "read_rtf"), (868)%Z, (s "seek"));
   ((s "sharepoint2text/parsing/extractors/ms_legacy/rtf_extractor.py"), (s "read_rtf"), (869)%Z, (s "read"));
   ((s "sharepoint2text/parsing/extractors/ms_legacy/xls_extractor.py"), (s "_read_content"), (203)%Z, (s "read"));
@@ -121,28 +122,28 @@ Definition stream_sites : list stream_site := [
   ((s "sharepoint2text/parsing/extractors/open_office/odt_extractor.py"), (s "read_odt"), (776)%Z, (s "seek"));
   ((s "sharepoint2text/parsing/extractors/pdf/pdf_extractor.py"), (s "_open_pdf_reader"), (216)%Z, (s "seek"));
   ((s "sharepoint2text/parsing/extractors/pdf/pdf_extractor.py"), (s "_open_pdf_reader"), (224)%Z, (s "seek"));
-  ((s "sharepoint2text/parsing/extractors/pdf/pdf_extractor.py"), (s "_should_skip_images"), (238)%Z, (s "getbuffer().nbytes"));
+  ((s "sharepoint2text/parsing/extractors/pdf/pdf_extractor.py"), (s "_should_skip_images"), (244)%Z, (s "getbuffer().nbytes"));
   ((s "sharepoint2text/parsing/extractors/plain_extractor.py"), (s "read_plain_text"), (177)%Z, (s "seek"));
   ((s "sharepoint2text/parsing/extractors/plain_extractor.py"), (s "read_plain_text"), (179)%Z, (s "read"));
-  ((s "sharepoint2text/parsing/extractors/util/encryption.py"), (s "is_ooxml_encrypted"), (17)%Z, (s "seek"));
-  ((s "sharepoint2text/parsing/extractors/util/encryption.py"), (s "is_ooxml_encrypted"), (24)%Z, (s "seek"));
-  ((s "sharepoint2text/parsing/extractors/util/encryption.py"), (s "is_ooxml_encrypted"), (19)%Z, (s "seek"));
-  ((s "sharepoint2text/parsing/extractors/util/encryption.py"), (s "is_ooxml_encrypted"), (22)%Z, (s "seek"));
-  ((s "sharepoint2text/parsing/extractors/util/encryption.py"), (s "is_odf_encrypted"), (29)%Z, (s "seek"));
-  ((s "sharepoint2text/parsing/extractors/util/encryption.py"), (s "is_odf_encrypted"), (34)%Z, (s "seek"));
-  ((s "sharepoint2text/parsing/extractors/util/encryption.py"), (s "is_odf_encrypted"), (46)%Z, (s "seek"));
-  ((s "sharepoint2text/parsing/extractors/util/encryption.py"), (s "is_odf_encrypted"), (31)%Z, (s "seek"));
-  ((s "sharepoint2text/parsing/extractors/util/encryption.py"), (s "is_xls_encrypted"), (51)%Z, (s "seek"));
-  ((s "sharepoint2text/parsing/extractors/util/encryption.py"), (s "is_xls_encrypted"), (56)%Z, (s "seek"));
-  ((s "sharepoint2text/parsing/extractors/util/encryption.py"), (s "is_xls_encrypted"), (79)%Z, (s "seek"));
-  ((s "sharepoint2text/parsing/extractors/util/encryption.py"), (s "is_xls_encrypted"), (53)%Z, (s "seek"));
-  ((s "sharepoint2text/parsing/extractors/util/encryption.py"), (s "is_xls_encrypted"), (65)%Z, (s "seek"));
-  ((s "sharepoint2text/parsing/extractors/util/encryption.py"), (s "is_xls_encrypted"), (76)%Z, (s "seek"));
-  ((s "sharepoint2text/parsing/extractors/util/encryption.py"), (s "is_ppt_encrypted"), (84)%Z, (s "seek"));
-  ((s "sharepoint2text/parsing/extractors/util/encryption.py"), (s "is_ppt_encrypted"), (89)%Z, (s "seek"));
-  ((s "sharepoint2text/parsing/extractors/util/encryption.py"), (s "is_ppt_encrypted"), (97)%Z, (s "seek"));
-  ((s "sharepoint2text/parsing/extractors/util/encryption.py"), (s "is_ppt_encrypted"), (86)%Z, (s "seek"));
+  ((s "sharepoint2text/parsing/extractors/util/encryption.py"), (s "is_ooxml_encrypted"), (18)%Z, (s "seek"));
+  ((s "sharepoint2text/parsing/extractors/util/encryption.py"), (s "is_ooxml_encrypted"), (25)%Z, (s "seek"));
+  ((s "sharepoint2text/parsing/extractors/util/encryption.py"), (s "is_ooxml_encrypted"), (20)%Z, (s "seek"));
+  ((s "sharepoint2text/parsing/extractors/util/encryption.py"), (s "is_ooxml_encrypted"), (23)%Z, (s "seek"));
+  ((s "sharepoint2text/parsing/extractors/util/encryption.py"), (s "is_odf_encrypted"), (30)%Z, (s "seek"));
+  ((s "sharepoint2text/parsing/extractors/util/encryption.py"), (s "is_odf_encrypted"), (35)%Z, (s "seek"));
+  ((s "sharepoint2text/parsing/extractors/util/encryption.py"), (s "is_odf_encrypted"), (42)%Z, (s "seek"));
+  ((s "sharepoint2text/parsing/extractors/util/encryption.py"), (s "is_odf_encrypted"), (32)%Z, (s "seek"));
+  ((s "sharepoint2text/parsing/extractors/util/encryption.py"), (s "is_xls_encrypted"), (59)%Z, (s "seek"));
+  ((s "sharepoint2text/parsing/extractors/util/encryption.py"), (s "is_xls_encrypted"), (64)%Z, (s "seek"));
+  ((s "sharepoint2text/parsing/extractors/util/encryption.py"), (s "is_xls_encrypted"), (87)%Z, (s "seek"));
+  ((s "sharepoint2text/parsing/extractors/util/encryption.py"), (s "is_xls_encrypted"), (61)%Z, (s "seek"));
+  ((s "sharepoint2text/parsing/extractors/util/encryption.py"), (s "is_xls_encrypted"), (73)%Z, (s "seek"));
+  ((s "sharepoint2text/parsing/extractors/util/encryption.py"), (s "is_xls_encrypted"), (84)%Z, (s "seek"));
   ((s "sharepoint2text/parsing/extractors/util/encryption.py"), (s "is_ppt_encrypted"), (92)%Z, (s "seek"));
+  ((s "sharepoint2text/parsing/extractors/util/encryption.py"), (s "is_ppt_encrypted"), (97)%Z, (s "seek"));
+  ((s "sharepoint2text/parsing/extractors/util/encryption.py"), (s "is_ppt_encrypted"), (105)%Z, (s "seek"));
+  ((s "sharepoint2text/parsing/extractors/util/encryption.py"), (s "is_ppt_encrypted"), (94)%Z, (s "seek"));
+  ((s "sharepoint2text/parsing/extractors/util/encryption.py"), (s "is_ppt_encrypted"), (100)%Z, (s "seek"));
   ((s "sharepoint2text/parsing/extractors/util/zip_bomb.py"), (s "open_zipfile"), (124)%Z, (s "seek"));
   ((s "sharepoint2text/parsing/extractors/util/zip_bomb.py"), (s "validate_zip_bytesio"), (145)%Z, (s "tell"));
   ((s "sharepoint2text/parsing/extractors/util/zip_bomb.py"), (s "validate_zip_bytesio"), (147)%Z, (s "seek"));
@@ -151,7 +152,7 @@ Definition stream_sites : list stream_site := [
 
 (* modes of zipfile.ZipFile(file_like, mode) / open(...) applied to the input object *)
 Definition open_modes : list (str * str * Z * str) := [
-  ((s "sharepoint2text/parsing/extractors/archive_extractor.py"), (s "_extract_from_zip_optimized"), (285)%Z, (s "r"));
+  ((s "sharepoint2text/parsing/extractors/archive_extractor.py"), (s "_extract_from_zip_optimized"), (295)%Z, (s "r"));
   ((s "sharepoint2text/parsing/extractors/util/zip_bomb.py"), (s "open_zipfile"), (125)%Z, (s "r"));
   ((s "sharepoint2text/parsing/extractors/util/zip_bomb.py"), (s "validate_zip_bytesio"), (148)%Z, (s "r"))
 ].
